@@ -31,6 +31,9 @@ LossyBound(e, n) == e.cfg.width * (2 + Bits(CeilDiv(n, e.cfg.width))) * 128 + Sl
 Failing(e) ==
     IF e.structure = "failed-ops" THEN
        Cl("C11.noGrowthOnFailedOperations", e.at[1] <= e.new + 1024 /\ e.cleared <= 1024)
+    ELSE IF e.structure = "clear-cycles" THEN
+       \* live bytes after 20 use-and-clear rounds against live bytes after thousands of them
+       Cl("C11.noGrowthOverClearAndReuseCycles", e.at[1] <= e.new + 1024)
     ELSE IF e.structure = "lossy" THEN
        Cl("C11.lossyCounterWithinDocumentedLogBound", \A i \in 1 .. Len(e.at) : e.at[i] <= LossyBound(e, e.stages[i]))
     ELSE
